@@ -128,11 +128,13 @@ def run_case(res, root, p, s, rel, fault, skip, threads, cache):
         fsmod.ThreadPoolExecutor = world.executor_class("thread")
         fsmod.ProcessPoolExecutor = world.executor_class("process")
         fsmod.gc = P.NoGC
+        restore = world.install_waiters()
         try:
             A.info_cache.clear()
             B.info_cache.clear()
             return world, execute(A, B, fa, fb, rel, fault, skip)
         finally:
+            restore()
             (fsmod.ThreadPoolExecutor, fsmod.ProcessPoolExecutor,
              fsmod.gc) = saved
 
